@@ -41,3 +41,107 @@ fn seam_small() {
     }
     assert!(found == bit(w, i), "C16: every set bit is listed");
 }
+
+use crate::square::verif::cut_err;
+
+// The inner parsers as seen by Action::from_str: Ok(v) iff the text is the printed form of v (piece letters of either
+// case), otherwise an error (construction cut).  These are the contracts discharged for the real inner parsers by
+// c16_square_from_str / c16_square_print_parse, c16_piece_from_str, c16_direction_from_str.
+pub fn sq_spec_parse(s: &str) -> Result<Square, ::anyhow::Error> {
+    let b = s.as_bytes();
+    if b.len() == 2 && b[0] >= b'a' && b[0] <= b'h' && b[1] >= b'1' && b[1] <= b'8' {
+        Ok(Square::from_index((b'8' - b[1]) * 8 + (b[0] - b'a')))
+    } else {
+        kani::assume(false);
+        unreachable!()
+    }
+}
+pub fn dir_spec_parse(s: &str) -> Result<Direction, ::anyhow::Error> {
+    let b = s.as_bytes();
+    if b.len() == 1 && b[0] == b'n' {
+        Ok(Direction::Up)
+    } else if b.len() == 1 && b[0] == b'e' {
+        Ok(Direction::Right)
+    } else if b.len() == 1 && b[0] == b's' {
+        Ok(Direction::Down)
+    } else if b.len() == 1 && b[0] == b'w' {
+        Ok(Direction::Left)
+    } else {
+        kani::assume(false);
+        unreachable!()
+    }
+}
+pub fn piece_spec_parse(s: &str) -> Result<Piece, ::anyhow::Error> {
+    let b = s.as_bytes();
+    if b.len() != 1 {
+        kani::assume(false);
+    }
+    match b[0].to_ascii_lowercase() {
+        b'e' => Ok(Piece::Elephant),
+        b'm' => Ok(Piece::Camel),
+        b'h' => Ok(Piece::Horse),
+        b'd' => Ok(Piece::Dog),
+        b'c' => Ok(Piece::Cat),
+        b'r' => Ok(Piece::Rabbit),
+        _ => {
+            kani::assume(false);
+            unreachable!()
+        }
+    }
+}
+
+// @obl props=C16 tier=quick kind=harness-contract mem=10 est=300 timeout=2400
+// @bounded all valid UTF-8 strings of <= 5 bytes (every string of <= 3 characters with multi-byte characters up to 5 bytes in total, every printed form); strings with another character count are rejected right after chars().collect()
+// @fns Action::from_str
+// @clause modular: the three inner parsers are replaced by their contracts. For every such string: parse::<Action>() does not panic (no slicing inside a character, no overflow); Ok(a) only if the bytes are the printed form of a ("p"; a piece letter of either case; file letter + rank digit + direction letter)
+#[kani::proof]
+#[kani::unwind(8)]
+#[kani::stub(::anyhow::private::format_err, cut_err)]
+#[kani::stub(<crate::square::Square as std::str::FromStr>::from_str, sq_spec_parse)]
+#[kani::stub(<crate::direction::Direction as std::str::FromStr>::from_str, dir_spec_parse)]
+#[kani::stub(<crate::piece::Piece as std::str::FromStr>::from_str, piece_spec_parse)]
+fn c16_action_from_str() {
+    let bytes: [u8; 5] = kani::any();
+    let len: usize = kani::any();
+    kani::assume(len <= 5);
+    if let Ok(s) = std::str::from_utf8(&bytes[..len]) {
+        kani::cover!(len == 3 && bytes[0] == b'a' && bytes[1] == b'2' && bytes[2] == b'n');
+        kani::cover!(len == 5);
+        if let Ok(a) = s.parse::<Action>() {
+            match a {
+                Action::Pass => assert!(len == 1 && bytes[0] == b'p', "C16: Pass parses only from \"p\""),
+                Action::Place(p) => assert!(len == 1 && (bytes[0] == piece_letter(p) || bytes[0] == piece_letter(p).to_ascii_uppercase()), "C16: a placement parses only from its piece letter"),
+                Action::Move(sq, d) => {
+                    let i = sq.index() as u8;
+                    assert!(i < 64 && len == 3 && bytes[0] == file_letter(i) && bytes[1] == rank_digit(i) && bytes[2] == dir_letter(d), "C16: a step parses only from its printed form");
+                }
+            }
+        }
+    }
+}
+// @obl props=C16 tier=quick kind=harness-contract mem=8 est=200 timeout=1800
+// @fns Action::from_str
+// @clause modular: all 263 action values (64x4 steps, 6 placements, pass): the printed form parses back to the same value
+#[kani::proof]
+#[kani::unwind(8)]
+#[kani::stub(::anyhow::private::format_err, cut_err)]
+#[kani::stub(<crate::square::Square as std::str::FromStr>::from_str, sq_spec_parse)]
+#[kani::stub(<crate::direction::Direction as std::str::FromStr>::from_str, dir_spec_parse)]
+#[kani::stub(<crate::piece::Piece as std::str::FromStr>::from_str, piece_spec_parse)]
+fn c16_action_print_parse() {
+    let k: u8 = kani::any();
+    kani::assume(k < 3);
+    let i = any_sq();
+    let d: Direction = kani::any();
+    let p: Piece = kani::any();
+    let (a, b, n): (Action, [u8; 3], usize) = match k {
+        0 => (Action::Pass, [b'p', 0, 0], 1),
+        1 => (Action::Place(p), [piece_letter(p), 0, 0], 1),
+        _ => (mv(i, d), [file_letter(i), rank_digit(i), dir_letter(d)], 3),
+    };
+    kani::cover!(k == 2);
+    match std::str::from_utf8(&b[..n]).unwrap().parse::<Action>() {
+        Ok(x) => assert!(x == a, "C16: printed form of an action parses back to it"),
+        Err(_) => assert!(false, "C16: printed form of an action must parse"),
+    }
+}
